@@ -417,6 +417,8 @@ pub struct KnownFinding {
     pub scenario: String,
     pub tape: Vec<u64>,
     pub tier: Tier,
+    /// a literal input for scenarios that replay a fixed document instead of a tape (robust against generator changes)
+    pub input: Option<String>,
 }
 
 pub fn load_known_findings(path: &str) -> Result<Vec<KnownFinding>, String> {
@@ -438,6 +440,7 @@ pub fn load_known_findings(path: &str) -> Result<Vec<KnownFinding>, String> {
                 what: s("what"),
                 scenario: s("scenario"),
                 tier: if s("tier") == "thorough" { Tier::Thorough } else { Tier::Quick },
+                input: k.get("input").and_then(Value::as_str).map(str::to_string),
                 tape: k
                     .get("tape")
                     .and_then(Value::as_array)
@@ -458,6 +461,9 @@ fn matches_known(kf: &KnownFinding, property: &str, v: &Violation) -> bool {
 
 // ------------------------------------------------------------------------------------------------
 // the search driver
+
+/// literal input for fixed-input scenarios (set only while a known finding is replayed)
+pub static FIXED_INPUT: std::sync::RwLock<Option<String>> = std::sync::RwLock::new(None);
 
 pub struct ScenarioPlan {
     pub scenario: Box<dyn Scenario>,
@@ -631,6 +637,9 @@ pub fn run_check(spec: &CheckSpec, tier: Tier) -> i32 {
             Tier::Quick => plan.quick_runs,
             Tier::Thorough => plan.thorough_runs,
         };
+        if n == 0 {
+            continue;
+        }
         let n = (n * scale_pct / 100).max(1);
         total_runs += n;
         let block = (n / (workers as u64 * 8)).clamp(1, 512);
@@ -713,7 +722,9 @@ pub fn run_check(spec: &CheckSpec, tier: Tier) -> i32 {
     for kf in known.iter().filter(|k| k.property == spec.property) {
         let mut reproduced = false;
         if let Some(plan) = spec.plans.iter().find(|p| p.scenario.name() == kf.scenario) {
+            *FIXED_INPUT.write().unwrap() = kf.input.clone();
             let r = exec_run(plan.scenario.as_ref(), Tape::from_replay(kf.tape.clone()), kf.tier, false);
+            *FIXED_INPUT.write().unwrap() = None;
             if let Some(v) = &r.violation {
                 if matches_known(kf, spec.property, v) {
                     reproduced = true;
@@ -770,6 +781,9 @@ pub fn run_check(spec: &CheckSpec, tier: Tier) -> i32 {
     // samples: re-render the first non-trivial runs of each scenario
     let mut samples = Vec::new();
     for (si, plan) in spec.plans.iter().enumerate() {
+        if plan.quick_runs == 0 && plan.thorough_runs == 0 {
+            continue;
+        }
         let want = if si == 0 { 2 } else { 1 };
         let mut got = 0;
         let mut fallback = None;
